@@ -138,9 +138,14 @@ int main(int argc, char **argv) {
   std::ifstream sf(argv[1]);
   std::string line;
   long lineno = 0;
+  bool skipping = false; long last_r = 0;
   while (std::getline(sf, line)) {
     ++lineno;
     if (line.empty() || line[0] == '#') continue;
+    // history guards: "iffail_skip" starts skipping when the previous call returned non-zero; "resume" ends it
+    if (line == "resume") { skipping = false; std::cout << "{\"line\":" << lineno << ",\"res\":{\"resumed\":1}}" << std::endl; continue; }
+    if (line == "iffail_skip") { if (last_r != 0) skipping = true; std::cout << "{\"line\":" << lineno << ",\"res\":{\"skipping\":" << (skipping ? 1 : 0) << "}}" << std::endl; continue; }
+    if (skipping) { std::cout << "{\"line\":" << lineno << ",\"res\":{\"skipped\":1}}" << std::endl; continue; }
     std::vector<std::string> f = split(line, '\t');
     std::vector<bool> isnull(f.size(), false);
     for (size_t i = 0; i < f.size(); ++i) { isnull[i] = (f[i] == "\\NULL"); f[i] = unesc(f[i]); }
@@ -192,6 +197,7 @@ int main(int argc, char **argv) {
           } else found = false;
         }
         out = found ? "{\"r\":" + r + "}" : "{\"unknown\":" + jstr(name) + "}";
+        if (found && (name.find("Run") == 0 || name.find("LoadDatabase") == 0)) last_r = atol(r.c_str());
       }
       else if (op == "cval") {
         VAR v; VarInit(&v);
